@@ -5555,8 +5555,16 @@ class State:
 
         if (
                 self.mode == Mode.TOURNAMENT
-                and status
-                and sum(map(bool, cards)) < len(self.hole_cards[player_index])
+                and (
+                    (
+                        status
+                        and (
+                            sum(map(bool, cards))
+                            < len(self.hole_cards[player_index])
+                        )
+                    )
+                    or (not status and self.all_in_status)
+                )
         ):
             if self.all_in_status:
                 raise ValueError('The player must show when all-in.')
